@@ -13,7 +13,7 @@
    Threads, the OS pipe and wall-clock promptness cannot be exhibited by a Gallina model (runtime, sampled by black-box runs through a
    real pipe); the session model is tied to the real main loop by scripted sessions with deterministic arrival of lines. *)
 From Coq Require Import NArith ZArith List Bool String Lia.
-From JV Require Import Gen.Consts Model.Chess Model.TT Model.Search Model.SearchChess Model.Fen Model.Go Model.Uci Model.Eval Proofs.UciLoopProofs Props.C03.
+From JV Require Import Gen.Consts Model.Chess Model.TT Model.Search Model.SearchChess Model.Fen Model.Go Model.Uci Model.Eval Proofs.UciLoopProofs Proofs.LegalInv Props.C03.
 Import ListNotations.
 Local Open Scope string_scope.
 
@@ -306,7 +306,67 @@ Proof.
   - cbn [fst map List.concat filter List.length]. rewrite K. destruct (idle_isready l); cbn [List.length]; lia.
 Qed.
 
+(* ------------------------------------------------------------------ every state of a whole session (C03/C06/C12 along sessions) *)
+(* what is left of the input after a line was executed is a suffix of what was there, and a line handed back comes from the input *)
+Lemma uci_step_suffix extra dl u l input u' outs rq input' st :
+  uci_step extra dl u l input = (u', outs, rq, input', st) ->
+  (exists pre, input = (pre ++ input')%list) /\ (forall x, rq = Some x -> In x (map snd input)).
+Proof.
+  unfold uci_step. cbn zeta.
+  repeat match goal with
+         | |- (if ?c then _ else _) = _ -> _ => destruct c
+         | |- match ?x with _ => _ end = _ -> _ => destruct x eqn:?
+         | |- (let '(_, _) := ?x in _) = _ -> _ => destruct x eqn:?
+         end;
+    intros H; try (injection H as <- <- <- <- <-; split; [exists []; reflexivity|intros yy EE; discriminate EE]).
+  match goal with E : poll_schedule _ _ _ _ = (_, _, _) |- _ =>
+    pose proof (poll_schedule_suffix _ _ _ _ _ _ _ E) as (tk & P & _ & _) end.
+  injection H as <- <- <- <- <-. split; [exists tk; exact P|].
+  intros yy EE. destruct o as [[k [|]]|]; try discriminate EE. apply nth_error_In in EE. exact EE.
+Qed.
+
+(* in a session started in a state holding a legal position, all of whose lines are admissible (C03.line_ok: everything except a `position fen`
+   whose result fails the executable invariant), every line is executed in a state holding a legal position -- so (C03_main_loop_bestmoves_are_legal,
+   C12_main_loop_pvs_are_legal_lines, C06_main_loop_searches_examine_only_consistent_positions) every best move and PV printed anywhere in the
+   session is legal under the rules in the position it was asked for, and every search examines only consistent positions *)
+Theorem C03_every_line_of_a_session_is_executed_in_a_legal_position : forall extra fuel dls u pending input,
+  legal_inv (u_game u) -> Forall line_ok (map snd input) -> (forall l, pending = Some l -> line_ok l) ->
+  Forall (fun ul => legal_inv (u_game (fst ul)) /\ line_ok (snd ul)) (uci_exec extra dls fuel u pending input).
+Proof.
+  intros extra fuel. induction fuel as [|f IH]; intros dls u pending input LI FI PI; [constructor|].
+  cbn [uci_exec].
+  assert (NX : forall l input', match pending with Some l => Some (l, input) | None => match input with [] => None | (_, l) :: r => Some (l, r) end end = Some (l, input') ->
+               line_ok l /\ Forall line_ok (map snd input')).
+  { intros l input' E. destruct pending as [p|].
+    - injection E as <- <-. split; [apply PI; reflexivity|exact FI].
+    - destruct input as [|[d x] r]; [discriminate E|]. injection E as <- <-. cbn [map snd] in FI. inversion FI; subst. split; assumption. }
+  destruct (match pending with Some l => Some (l, input) | None => match input with [] => None | (_, l) :: r => Some (l, r) end end) as [[l input']|]; [|constructor].
+  destruct (NX l input' eq_refl) as (OK & FI').
+  pose proof (C03_main_loop_keeps_the_position_legal extra (List.hd O dls) u l input' LI OK) as K.
+  destruct (uci_step extra (List.hd O dls) u l input') as [[[[u' outs] rq] input''] st] eqn:E.
+  destruct (uci_step_suffix _ _ _ _ _ _ _ _ _ _ E) as ((pre & P) & RQ).
+  constructor; [split; [exact LI|exact OK]|].
+  destruct st; [|constructor|constructor].
+  apply IH; [exact K| |].
+  - rewrite P, map_app in FI'. apply Forall_app in FI'. exact (proj2 FI').
+  - intros x EX. specialize (RQ x EX). rewrite Forall_forall in FI'. apply FI'. exact RQ.
+Qed.
+(* ... in particular for whole sessions of a freshly started engine *)
+Theorem C03_fresh_sessions_stay_in_legal_positions : forall extra dls input,
+  Forall line_ok (map snd input) ->
+  Forall (fun ul => legal_inv (u_game (fst ul)) /\ line_ok (snd ul))
+         (uci_exec extra dls (2 * List.length input + 4) init_ustate None (with_eof input)).
+Proof.
+  intros extra dls input F. apply C03_every_line_of_a_session_is_executed_in_a_legal_position.
+  - exact (C03_every_session_state_holds_a_legal_position extra init_ustate (ss_init extra)).
+  - unfold with_eof. rewrite map_app. apply Forall_app. split; [exact F|]. constructor; [|constructor].
+    unfold line_ok. cbv zeta. intros H. vm_compute in H. discriminate H.
+  - intros l E. discriminate E.
+Qed.
+
 Print Assumptions C13_uciok.
+Print Assumptions C03_every_line_of_a_session_is_executed_in_a_legal_position.
+Print Assumptions C03_fresh_sessions_stay_in_legal_positions.
 Print Assumptions C13_every_isready_of_a_session_is_answered_exactly_once.
 Print Assumptions C13_every_go_of_a_session_is_answered_exactly_once.
 Print Assumptions C13_handed_back_line_is_executed_next.
